@@ -470,6 +470,35 @@ impl Check for C13 {
         ] {
             cases.push(Case::new(src.to_string(), T_REF, "targets or literal items that read what is being bound".to_string()));
         }
+        // markers in the wrong place: spread and collect on one item, a collect that is not last
+        // (patterns and parameter lists), a spread in a pattern -- all reported
+        for bad in [
+            "[a, ..r..] := [1, 2]\n",
+            "[..r..] := [1, 2]\n",
+            "[a, ..r..] = [1, 2]\n",
+            "for [i, ..r..] in [[1, 2]] {\n}\n",
+            "[[..r..]] := [[1]]\n",
+            "fn f(..init, last) {\n}\nf(1, 2)\n",
+            "fn f(..a, ..b) {\n}\nf(1)\n",
+            "g := fn (.._, x, ..rest) {\n}\ng(1, 2, 3)\n",
+            "g := fn (..init, last) {\nreturn last\n}\nprint(g(1, 2))\n",
+            "fn f(a.., b) {\n}\nf(1, 2)\n",
+            "fn f(a, b..) {\n}\nf(1, 2)\n",
+            "{..r.., a} := {\"a\": 1}\n",
+            "{a, ..r..} := {\"a\": 1}\n",
+            "[..r, a] := [1, 2]\n",
+            "{..r, a} := {\"a\": 1}\n",
+        ] {
+            cases.push(Case::new(format!("r := 0\na := 0\nprint(\"pre\")\n{}print(\"accepted\")\n", bad), T_EXPECT_ERR, format!("misplaced marker {:?}", bad.replace('\n', " "))));
+        }
+        // the round trips hold every time they are evaluated, not only the first
+        for prog in [
+            "o := {\"a\": 1, \"k\": 2, \"z\": 3}\n{a, \"k\": b, ..rest} := o\nprint({\"a\": a, \"k\": b, rest..} == o)\nprint({\"a\": a, \"k\": b, rest..} == o)\nprint(rest)\nprint({rest.., rest..})\nprint(o)\nc := {o..}\nd := {o..}\nprint(c == d)\nprint(o)\n",
+            "xs := [1, 2, 3]\n[p, ..rest] := xs\nprint([p] + rest == xs)\nprint([p, rest..] == xs)\nprint([p, rest..] == xs)\nprint(rest)\nprint([xs.., xs..])\nprint([xs.., xs..] == xs + xs)\nprint(xs)\n",
+            "fn f(a, b, c) {\nreturn [a, b, c]\n}\nxs := [1, 2, 3]\nprint(f(xs..))\nprint(f(xs..) == f(xs[0], xs[1], xs[2]))\nprint(xs)\n",
+        ] {
+            cases.push(Case::new(prog.to_string(), T_REF, "round trips evaluated repeatedly".to_string()));
+        }
         // patterns nest: an object pattern inside an object or list pattern, with collects at
         // both levels; the collected rest of each level is that level's remainder
         for pat in [
